@@ -3,12 +3,18 @@ FUNCTIONS = [
     'circus.util:to_signum',
     # confinement: request -> Signal/Kill command -> Watcher -> Process -> psutil handle
     'circus.process:get_children',
+    'circus.process:Process.poll',
+    'circus.process:Process.is_alive',
+    'circus.process:Process.send_signal',
+    'circus.process:Process.stop',
+    'circus.process:Process.children',
     'circus.process:Process.send_signal_child',
     'circus.process:Process.send_signal_children',
     'circus.watcher:Watcher.send_signal',
     'circus.watcher:Watcher.send_signal_child',
     'circus.watcher:Watcher.send_signal_children',
     'circus.watcher:Watcher.send_signal_process',
+    'circus.watcher:Watcher.kill_process',
     'circus.watcher:Watcher.call_hook',
     'circus.commands.base:Command.validate',
     'circus.commands.base:Command._get_watcher',
@@ -19,6 +25,10 @@ FUNCTIONS = [
 ]
 LEMMAS = []
 FRAMES = [
+    {'name': 'pid-property-definition', 'kind': 'body_is', 'function': 'circus.process:Process.pid',
+     'body': 'return self._worker.pid', 'decorators': ['property'],
+     'what': 'Process.pid (a model field in the contracts) is the property `return self._worker.pid`: justifies the entry '
+             'assumption A-WORKERPID of the Process wrappers'},
     {'name': 'kernel-kill-sites', 'kind': 'call',
      'callee': ['os.kill', 'os.killpg', 'kill', 'killpg', 'terminate', 'send_signal'], 'methods_only': False,
      'what': 'signals reach the kernel only through psutil send_signal/terminate in Process.send_signal, '
